@@ -253,6 +253,15 @@ def cb_view(facts, tr, rep):
     return CB(f, t, rep), f, t
 
 
+def all_integer_struct(facts, adt_def):
+    """a workspace struct all of whose fields are unsigned integers (counts grouped into one value)"""
+    adt = facts.adt(adt_def)
+    if adt is None or not adt_def.startswith(CRATE) or len(adt.get("variants", [])) != 1 or not adt["variants"][0]["fields"]:
+        return False
+    crate = [c_ for c_ in facts.crates.values() if adt_def in c_.adts]
+    return bool(crate) and all(crate[0].types[f["ty"]]["s"] in ("usize", "u64", "u32", "u16", "u8") for f in adt["variants"][0]["fields"])
+
+
 def _is_counter_field(facts, adt_def, name):
     adt = facts.adt(adt_def)
     if adt is None:
@@ -368,8 +377,11 @@ def check_stats_partition(cb, rep, rule):
     facts, tr = cb.facts, cb.tr
     n = 0
     for F in facts.crates[CRATE].bodies:
-        if F.kind != "fn" or not cb._is_circuit_method(F) or not F.local_ty(0)["s"].startswith("(usize"):
+        if F.kind != "fn" or not cb._is_circuit_method(F):
             continue
+        rty = F.local_ty(0)
+        if not (rty["s"].startswith("(usize") or (rty.get("def") and all_integer_struct(facts, rty["def"]))):
+            continue        # the statistics come back as a tuple of counts, or as a private struct of counts
         g = graph(F)
         if not any(c.name in ("next", "count", "fold", "sum") for c in g.calls()):
             continue
@@ -392,8 +404,16 @@ def check_stats_partition(cb, rep, rule):
                 guards.setdefault(c.dest["l"], []).append((gs, c.where()))
         for i, blk in enumerate(F.blocks):
             for j, s_ in enumerate(blk["stmts"]):
-                if s_["k"] != "assign" or s_["lhs"]["p"] or not F.locals[s_["lhs"]["l"]].get("user"):
+                if s_["k"] != "assign" or not F.locals[s_["lhs"]["l"]].get("user"):
                     continue        # (the checked-add temporaries of `x += 1` are not counters)
+                ckey = s_["lhs"]["l"]
+                if s_["lhs"]["p"]:
+                    # a field of a local struct of counts (`stats.failures += 1`)
+                    pr = s_["lhs"]["p"]
+                    if len(pr) == 1 and isinstance(pr[0], dict) and pr[0].get("n") and pr[0].get("adt") and all_integer_struct(facts, pr[0]["adt"]):
+                        ckey = (s_["lhs"]["l"], pr[0]["n"])
+                    else:
+                        continue
                 v = peel(tr.stmt_value(F, i, j))
                 if v[0] == "field" and peel(v[1])[0] == "binop":
                     v = peel(v[1])
@@ -403,7 +423,7 @@ def check_stats_partition(cb, rep, rule):
                 for e in dominating_edges(tr, F, i):
                     if e["kind"] == "bool" and e["node"][0] == "field" and isinstance(e["node"][2], str) and "via" not in e:
                         gs.add((e["node"][2], e["label"]))
-                guards.setdefault(s_["lhs"]["l"], []).append((gs, g.where(i, j)))
+                guards.setdefault(ckey, []).append((gs, g.where(i, j)))
         # a four-armed `match (is_failure, is_slow)` says the same as two `if`s: {C+(k,true), C+(k,false)} == {C}
         fams = {l: _simplify_family({frozenset(gs) for (gs, _w) in lst}) for l, lst in guards.items()}
         guards = {l: [(set(gs), lst[0][1]) for gs in fams[l]] for l, lst in guards.items()}
@@ -528,15 +548,18 @@ def check_slide_symmetry(cb, rep, rule):
         g = graph(F)
         pushes = [c for c in g.calls() if c.name in ("push_back", "push_front") and len(c.args) > 1]
         pops = [c for c in g.calls() if c.name in ("pop_front", "pop_back")]
-        pushed = {}
+        pushed = {}          # position (tuple index / field name, as a string) -> node of the flag recorded there
+        pushed_whole = []    # the outcome is handed in as one value (a private `CallOutcome { failed, slow }` parameter)
         for c in pushes:
             v = peel(ftr.expand(ftr.operand(F, c.args[1], c.loc)))
             if v[0] == "agg":
                 b2, rv = ftr.agg_of(v)
-                if rv.get("ak") == "tuple":
+                if rv.get("ak") == "tuple" or (rv.get("ak") == "adt" and rv.get("fields")):
                     for k, o in enumerate(rv["ops"]):
-                        pushed[k] = peel(ftr.expand(ftr.operand(b2, o, (v[3], v[4]))))
-        if not pushed or not pops:
+                        pushed[str(k) if rv.get("ak") == "tuple" else rv["fields"][k]] = peel(ftr.expand(ftr.operand(b2, o, (v[3], v[4]))))
+            else:
+                pushed_whole.append(v)
+        if not (pushed or pushed_whole) or not pops:
             continue
         rep.saw(F)
         popnodes = [("call", F.crate.name, F.def_, c.bb) for c in pops]
@@ -550,8 +573,17 @@ def check_slide_symmetry(cb, rep, rule):
             base = peel(node[1])
             while base[0] in ("field", "downcast"):
                 base = peel(base[1])
-            if base in popnodes and str(k).isdigit():
-                return int(k)
+            if base in popnodes:
+                return str(k)
+            return None
+
+        def pushed_pos(node):
+            node = peel(node)
+            for k, pn in pushed.items():
+                if node == pn:
+                    return k
+            if node[0] == "field" and peel(node[1]) in pushed_whole:
+                return str(node[2])
             return None
         incs, decs = {}, {}
         for i, blk in enumerate(F.blocks):
@@ -579,9 +611,9 @@ def check_slide_symmetry(cb, rep, rule):
                         continue
                     nd = peel(e["node"])
                     if kind == "inc":
-                        for k, pn in pushed.items():
-                            if nd == pn:
-                                gs.add((k, e["label"]))
+                        k = pushed_pos(nd)
+                        if k is not None:
+                            gs.add((k, e["label"]))
                     else:
                         k = popped_pos(nd)
                         if k is not None:
